@@ -18,11 +18,16 @@ import sys
 import time
 import traceback
 
-from . import VERIF_DIR
+from . import REPO_DIR, VERIF_DIR
 
 EVID = os.path.join(VERIF_DIR, "evidence")
 WORK = os.path.join(EVID, ".work")
 REPLAYS = os.path.join(EVID, "replays")
+# a run against a scratch copy of the repository (VERIF_REPO, sensitivity experiments) must not
+# overwrite the evidence of the real tree: its evidence and replays go to the git-ignored work dir
+SCRATCH_RUN = os.path.realpath(REPO_DIR) != "/repo"
+if SCRATCH_RUN:
+    REPLAYS = os.path.join(WORK, "scratch-replays")
 NCPU = 16
 
 
@@ -310,7 +315,7 @@ def main(argv=None):
     if getattr(mod, "EXHAUSTIVE", False):
         ev["coverage"]["exhaustive"] = True
     if not a.replay:
-        with open(os.path.join(EVID, prop + ".json"), "w") as fh:
+        with open(os.path.join(WORK if SCRATCH_RUN else EVID, prop + (".scratch.json" if SCRATCH_RUN else ".json")), "w") as fh:
             json.dump(ev, fh, indent=1, default=str)
             fh.write("\n")
 
